@@ -238,6 +238,16 @@ func discharge(obls []*Obligation, dir string, timeoutS int, workers int) {
 	}
 	close(ch)
 	wg.Wait()
+	// Undecided proof obligations are re-run one at a time with a longer budget: a timeout
+	// under sixteen-fold solver contention must not be mistaken for a failed proof.
+	for _, o := range obls {
+		if o.Status == "unknown" && !o.Cover {
+			first := o.Detail
+			o.Seconds = 0
+			dischargeOne(o, dir, timeoutS*4)
+			o.Detail = "retry: " + o.Detail + " | first: " + first
+		}
+	}
 }
 
 func fileSafe(s string) string {
